@@ -34,6 +34,8 @@ def _mag():
 @st.composite
 def strat_case(draw, tier):
     spec = draw(model_spec(exp=False))
+    # a quarter of the models get their parameters through the update protocol (assign every parameter, initialisation())
+    spec["route"] = draw(st.sampled_from(["direct", "direct", "direct", "updated"]))
     n = draw(st.sampled_from([0, 0, 1, 1, 2, 2, 3, 4, 5, 6]))
     fa, fv = activity(spec)
     zero_ok = (n >= 2) or (n == 1 and fv) or (n == 0 and fa)
@@ -234,7 +236,8 @@ def body(case):
 def classify(case):
     spec, n, cls = case["model"], case["n"], case["cls"]
     br = branch_of(spec)
-    labels = [br, f"n={n}", cls, "truncated" if case["trunc"] else "untruncated"]
+    labels = [br, f"n={n}", cls, "truncated" if case["trunc"] else "untruncated",
+              "parameters-" + spec.get("route", "direct")]
     cut = False
     if case["trunc"]:
         l, r = case["trunc"]
@@ -254,7 +257,7 @@ SUBCHECKS = [
                   "classes restricted to where the integral is finite x optional truncation x split point; "
                   "non-trivial = interval touches 0 or infinity, or n>=3, or y in {<0,0,1}, or truncation cuts "
                   "the interval; distinct = distinct case",
-             strategy=strat_case, budget={"quick": 1600, "thorough": 30000},
+             strategy=strat_case, budget={"quick": 6400, "thorough": 60000},
              shards={"quick": 16, "thorough": 16},
              essential_labels=("cgmy/y=0", "cgmy/y=1", "cgmy/y<0", "straddling", "truncation-cuts-interval")),
 ]
